@@ -897,6 +897,32 @@ func (l *Lowerer) trIdent(x *ast.Ident) (*Term, types.Type) {
 // lookupName resolves a name for spec expressions: function scope, then package scope, then universe.
 func (l *Lowerer) lookupName(name string) types.Object {
 	pk := l.fr.fi.Pkg
+	if ct := l.fr.contract; ct != nil && ct.LocalNames != nil {
+		if def, ok := ct.LocalNames[name]; ok {
+			// the local defined by `x := <def>` in this function or an enclosing one
+			for fi := l.fr.fi; fi != nil; fi = fi.Parent {
+				if fi.Body == nil {
+					continue
+				}
+				var found types.Object
+				ast.Inspect(fi.Body, func(n ast.Node) bool {
+					as, ok := n.(*ast.AssignStmt)
+					if !ok || as.Tok != token.DEFINE || len(as.Lhs) != 1 || len(as.Rhs) != 1 {
+						return true
+					}
+					if id, ok := as.Lhs[0].(*ast.Ident); ok && types.ExprString(as.Rhs[0]) == def {
+						if o := pk.TypesInfo.Defs[id]; o != nil && found == nil {
+							found = o
+						}
+					}
+					return true
+				})
+				if found != nil {
+					return found
+				}
+			}
+		}
+	}
 	if l.specPos.IsValid() {
 		if sc := pk.Types.Scope().Innermost(l.specPos); sc != nil {
 			if _, o := sc.LookupParent(name, l.specPos); o != nil {
